@@ -76,9 +76,18 @@ def draw_header(r):
         else:
             hdr["ctype1"], hdr["ctype2"] = "RA---TAN", "DEC--TAN"
         umax = R * scale
+        shape_kind = wpick(r, [("any", 7), ("axis_low", 1.5), ("linear", 1)])
+        low_axis = pick(r, ["pv1", "pv2"])
+        low_max = pick(r, [1, 2])
         for pv, pmap in (("pv1", PV1), ("pv2", PV2)):
             for k, (i, j) in pmap.items():
                 order = i + j
+                # scamp solutions of low degree: one axis without its cubic (or quadratic and cubic) terms, or a
+                # first-order solution (DISTORT_DEGREES=1: constant and linear terms only)
+                if shape_kind == "linear" and order > 1:
+                    continue
+                if shape_kind == "axis_low" and pv == low_axis and order > low_max:
+                    continue
                 if k == 1:
                     hdr["%s_1" % pv] = 1.0 + r.uniform(-1, 1) * min(0.015, 0.3 * D / R)
                     continue
